@@ -1712,7 +1712,27 @@ class Shim(types.ModuleType):
     amax = max
     amin = min
 
+    def arange(self, *args, **kw):
+        if len(args) == 1 and isinstance(args[0], SNum) and not z3.is_int_value(z3.simplify(args[0].t)):
+            # arange(N) with a symbolic length: element i is i
+            from . import larr
+
+            N = z3.simplify(args[0].t)
+            i = larr.index_for(N)
+            return larr.LArr(N, i, SNum(i), 0, rnp.int64)
+        args = [int(a) if isinstance(a, SNum) and a.is_int else a for a in args]
+        return rnp.arange(*args, **kw)
+
     def tile(self, a, reps):
+        if _is_larr(a) and isinstance(reps, tuple) and len(reps) == 2 and reps[1] == 1 and a.ndim == 1 and isinstance(reps[0], (int, rnp.integer)):
+            # (N,) -> (k, N): k copies of the row along a new leading axis
+            from . import larr
+
+            e = _plain(a.row)[()]
+            out = rnp.empty((int(reps[0]),), dtype=object)
+            for k in range(int(reps[0])):
+                out[k] = e
+            return larr.LArr(a.N, a.idx, wrap(out, a.ldt), 1, a.ldt)
         if isinstance(reps, tuple) and len(reps) == 2 and isinstance(reps[0], SNum) and reps[1] == 1:
             from . import larr
 
